@@ -67,6 +67,11 @@ class DoomedGen:
         if op is None:
             return None
         parent, _ = M.split(op['iso'])
+        if m.rr and lvl < 4 and r.random() < 0.5:
+            # where a valid name would be relocated (depth 8): the preparations for that must not outlive the refusal
+            deep = [d for d in m.dirs('iso') if m.depth(d) == 7]
+            if deep:
+                parent = r.choice(deep)
         choices = []
         if lvl < 4:
             choices += [('lower-case', 'abc'), ('non-d-character', 'A.B'), ('dash', 'A-B'), ('ends-in-newline', 'ABC\n'), ('tab', 'A\tB')]
@@ -167,6 +172,32 @@ class DoomedGen:
             op.setdefault('udf_target', 'x/y')
         return _finish(op, 'duplicate:add_symlink:%s-existing-%s:later-namespace' % (ns, n.kind), False, 'duplicate-in-namespace-2')
 
+    def udf_symlink_component_too_long(self):
+        """A UDF symlink target with a component that does not fit the one-byte component length."""
+        m, r = self.m, self.r
+        if not m.has('udf'):
+            return None
+        op = None
+        for _ in range(6):
+            op = self.g.g_add_symlink()
+            if op is not None and op.get('udf'):
+                break
+        if op is None or not op.get('udf'):
+            return None
+        long = ''.join(r.choice(G.RRCHARS.replace('.', '')) for _ in range(r.choice((255, 256, 300)))) if r.random() < 0.6 else \
+            ''.join(r.choice(G.UNI_BMP) for _ in range(r.choice((128, 200))))
+        op['udf_target'] = r.choice(('', 'a/', '../')) + long + r.choice(('', '/b'))
+        return _finish(op, 'udf-symlink-component-too-long:%s' % ('+'.join(ns for ns in ('iso', 'joliet', 'udf') if op.get(ns))), True, 'name-rule')
+
+    def bad_new(self):
+        """A new() with an argument the documentation refuses, on the object the history then starts on."""
+        r = self.r
+        cause, kw = r.choice((('joliet-level-5', {'joliet': 5}), ('interchange-level-5', {'interchange_level': 5}), ('sys-ident-too-long', {'sys_ident': 'S' * 33}),
+                              ('vol-ident-too-long', {'vol_ident': 'V' * 33}), ('rock-ridge-version-unknown', {'rock_ridge': '9.99'}),
+                              ('udf-version-unknown', {'udf': '9.99'}), ('app-use-too-long', {'app_use': 'A' * 513}),
+                              ('set-size-too-big', {'set_size': 65536}), ('seqnum-above-set-size', {'set_size': 1, 'seqnum': 2})))
+        return _finish({'op': 'bad_new', 'kw': kw}, 'new-arguments:' + cause, True, 'new-arguments')
+
     def depth(self):
         m, r = self.m, self.r
         if m.rr or m.cfg['level'] == 4:
@@ -266,6 +297,32 @@ class DoomedGen:
         api = r.choice(('rm_file', 'rm_link'))
         return _finish({'op': api, 'ns': ns, 'path': ghost}, 'missing-path:%s:%s' % (api, ns), False, 'missing-path')
 
+    def rm_dir_partly_nonempty(self):
+        """rm_directory naming several namespaces, empty in the first ones and not empty in a later one."""
+        m, r = self.m, self.r
+        nss = [ns for ns in ('iso', 'joliet', 'udf') if ns in m.roots]
+        if len(nss) < 2:
+            return None
+        bad_ns = r.choice(nss[1:])
+        nonempty = [p for p, n in m.iter_ns(bad_ns) if n.kind == 'dir' and n.children]
+        # exactly one child is the interesting edge for UDF (its directories have one bookkeeping entry, not two)
+        one = [p for p in nonempty if len(m.get(bad_ns, p).children) == 1]
+        if one and r.random() < 0.7:
+            nonempty = one
+        if not nonempty:
+            return None
+        op = {'op': 'rm_dir', bad_ns: r.choice(nonempty)}
+        for ns in nss:
+            if ns == bad_ns:
+                break
+            empty = [p for p, n in m.iter_ns(ns) if n.kind == 'dir' and not n.children and not n.reloc]
+            if empty and (len(op) == 1 or r.random() < 0.6):
+                op[ns] = r.choice(empty)
+        if len(op) < 2:
+            return None
+        order = [x for x in ('iso', 'joliet', 'udf') if x in op]
+        return _finish(op, 'wrong-type:rm_directory-non-empty:%s:namespace-%d-of-%d' % (bad_ns, order.index(bad_ns) + 1, len(order)), False, 'wrong-type')
+
     def eltorito_protected(self):
         m, r = self.m, self.r
         if not m.eltorito:
@@ -335,11 +392,27 @@ class DoomedGen:
                 return None
             op['media'] = 'floppy'
             return _finish(op, 'boot:floppy-with-wrong-size', True, 'boot-parameters')
-        if k < 0.8:
+        if k < 0.75:
             if any(off == 446 for off, h in b.overlays):
                 return None
             op['media'] = 'hdemul'
             return _finish(op, 'boot:hdemul-%s' % ('file-shorter-than-512' if b.length < 512 else 'mbr-without-55aa'), True, 'boot-parameters')
+        if k < 0.88 and not m.eltorito:
+            # the boot catalog gets names too; a name the namespace rules refuse
+            lvl = m.cfg['level']
+            bad = [('catalog-iso-name-two-semicolons', 'cat', '/CAT;1;1'), ('catalog-iso-name-version-0', 'cat', '/CAT.;0')]
+            if lvl < 4:
+                bad += [('catalog-iso-name-lower-case', 'cat', '/lower.cat;1'), ('catalog-iso-name-non-d-character', 'cat', '/BOOT-CAT.;1')]
+            if m.has('joliet'):
+                bad.append(('catalog-joliet-name-too-long', 'joliet_cat', '/' + 'j' * 70))
+            if m.has('udf'):
+                bad.append(('catalog-udf-name-too-long', 'udf_cat', '/' + 'u' * 260))
+            cause, key, val = r.choice(bad)
+            op[key] = val
+            op['media'] = 'noemul'
+            if m.rr:
+                op['rr_cat'] = 'cat%d' % r.randrange(10 ** 6)
+            return _finish(op, 'boot:' + cause, True, 'boot-parameters')
         # catalog name collides with an existing name
         if m.eltorito:
             return None
@@ -404,7 +477,7 @@ class DoomedGen:
         op['progress_raise_at'] = r.choice((1, 2, 3, 5, 10))
         return _finish(op, 'io-fault:progress_cb-raises-in-write_fp', True, 'io-fault')
 
-    GENS = ('bad_iso_file_name', 'bad_iso_dir_name', 'joliet_too_long', 'udf_too_long', 'rr_too_long', 'symlink_other_namespace_taken',
+    GENS = ('bad_iso_file_name', 'bad_iso_dir_name', 'joliet_too_long', 'udf_too_long', 'rr_too_long', 'symlink_other_namespace_taken', 'rm_dir_partly_nonempty', 'udf_symlink_component_too_long', 'bad_new',
             'depth', 'duplicate', 'duplicate', 'duplicate', 'missing_parent',
             'missing_parent', 'wrong_type_rm', 'wrong_type_rm', 'eltorito_protected', 'wrong_extension', 'bad_boot', 'bad_hybrid', 'state',
             'io_fault_boot', 'io_fault_write')
